@@ -89,6 +89,12 @@ func callObs(w *sim.World, c *sim.Call, v3 bool) string {
 func deriveRejected(s *Sess, r SOp) ([]byte, string) {
 	w := s.W
 	rcv := r.W & 1
+	if r.X >= 100 {
+		// a query message: ignored (nothing returned, nothing sent) when it arrives within a minute of a key exchange or
+		// of key-exchange activity; complete, cut short, or offering other versions than the one in use
+		forms := []string{"?OTRv23?", "?OTRv2?", "?OTRv3?", "?OTRv2", "?OTRv3", "?OTR?v2?", "?OTRv32?", "?OTRv?", "?OTRv4?"}
+		return []byte(forms[r.X%len(forms)]), "query-ignored"
+	}
 	// source: the message at the head of the queue towards rcv (if any), else a logged message of the peer
 	var src []byte
 	fromQueue := false
@@ -486,6 +492,10 @@ func TestProp_C06_Twin(t *testing.T) {
 		sc.At = rapid.IntRange(0, n).Draw(rt, "at")
 		sc.R = SOp{W: rapid.IntRange(0, 1).Draw(rt, "rw"), I: rapid.IntRange(0, 30).Draw(rt, "ri"), X: rapid.IntRange(0, 69).Draw(rt, "rx"),
 			L: rapid.IntRange(0, 3000).Draw(rt, "rl"), F: rapid.IntRange(0, 255).Draw(rt, "rf")}
+		if rapid.IntRange(0, 5).Draw(rt, "querykind") == 0 {
+			sc.R.X = 100 + rapid.IntRange(0, 8).Draw(rt, "qform")
+			sc.Pol |= sim.PolV2 | sim.PolV3 // both versions allowed: the query may name another one than the one in use
+		}
 		sim.Judge(rt, "C06twin", sc)
 	})
 }
@@ -516,6 +526,17 @@ func TestProp_C06_AKEStates(t *testing.T) {
 				at := len(ops)
 				ops = append(ops, SOp{K: "flush"}, SOp{K: "pp", W: 0, I: 1, L: 5})
 				for rcv := 0; rcv < 2; rcv++ {
+					for q := 0; q < 9; q++ {
+						// an ignored query at this point of the exchange, under a policy that allows both versions
+						if kk >= 6 || !sim.Thorough() && q%2 == 1 {
+							continue
+						}
+						idx++
+						if idx%sn != si {
+							continue
+						}
+						sim.Judge(t, "C06akestates", &TwinScript{Cfg: SessCfg{V: v, SeedA: 1700, SeedB: 1801, KeyA: 0, KeyB: 3}, Pol: sim.PolV2 | sim.PolV3, Ops: ops, At: at, R: SOp{W: rcv, X: 100 + q}})
+					}
 					for x := 0; x < 8; x++ {
 						for _, src := range []int{0, 2, 5} {
 							ls := []int{0, 3, 40, 200}
